@@ -17,8 +17,8 @@ def kind_of(v) -> str:
     if isinstance(v, float):
         return "float"
     if isinstance(v, int):
-        # the int-backed boolean value class prints as True/False
-        return "bool" if repr(v) in ("True", "False") else "int"
+        # the int-backed boolean value class prints as True/False (only 0 and 1 can; huge ints are never turned into text here)
+        return "bool" if (v == 0 or v == 1) and repr(v) in ("True", "False") else "int"
     return type(v).__name__
 
 
@@ -65,6 +65,16 @@ def parse_one(defn, raw: bytes, root=None):
     return ("parsed", items_of(out), out.raw_data.pos, len(w))
 
 
+def show(x) -> str:
+    """repr() that never trips over CPython's limit on converting huge ints to decimal text."""
+    if isinstance(x, int) and not isinstance(x, bool) and x.bit_length() > 4000:
+        return f"<{x.bit_length()}-bit int {hex(x)[:40]}...>"
+    try:
+        return repr(x)
+    except ValueError:
+        return f"<{type(x).__name__}>"
+
+
 def float_close(a: float, b: float, ulps=4) -> bool:
     if math.isnan(a) or math.isnan(b):
         return math.isnan(a) and math.isnan(b)
@@ -108,9 +118,9 @@ def compare_items(want_items, got_items, upto=None) -> str | None:
         if getattr(w, "unjudged", False):
             continue
         if not same_value(w.value, v, tolerant=w.calibrated, scale=w.scale):
-            return f"{name}: value {v!r} ({k}) != expected {w.value!r} ({kind_of(w.value)})"
+            return f"{name}: value {show(v)} ({k}) != expected {show(w.value)} ({kind_of(w.value)})"
         if not same_value(w.raw, rv):
-            return f"{name}: raw_value {rv!r} ({rk}) != expected {w.raw!r} ({kind_of(w.raw)})"
+            return f"{name}: raw_value {show(rv)} ({rk}) != expected {show(w.raw)} ({kind_of(w.raw)})"
     return None
 
 
